@@ -41,8 +41,14 @@ def main():
             kernels[key] = model(step["model"]).make_kernel(qvec(step))
         return kernels[key]
 
+    def blob_of(res):
+        if isinstance(res, tuple):
+            return b"".join(np.atleast_1d(np.asarray(r if r is not None else np.nan, float)).tobytes() for r in res)
+        return np.asarray(res, float).tobytes()
+
     out = []
     last = None
+    kept = []      # (step index, op, the returned objects themselves, their bytes when returned)
     for i, step in enumerate(case["steps"]):
         op = step["op"]
         rec = {"i": i, "op": op}
@@ -81,11 +87,11 @@ def main():
                 qb = [a.tobytes() for a in k.q_input.q_vectors] if hasattr(k, "q_input") and hasattr(k.q_input, "q_vectors") else None
                 if op == "call_kernel":
                     res = direct_model.call_kernel(k, pars, cutoff=step.get("cutoff", 0.0))
-                    blob = np.asarray(res, float).tobytes()
                 else:
                     res = direct_model.call_Fq(k, pars, cutoff=step.get("cutoff", 0.0))
-                    blob = b"".join(np.atleast_1d(np.asarray(r if r is not None else np.nan, float)).tobytes() for r in res)
+                blob = blob_of(res)
                 rec["hex"] = blob.hex()
+                kept.append((i, op, res, blob))
                 rec["mutated"] = (list(pars.items()) != list(before.items()))
                 last = step
             elif op == "direct":
@@ -104,6 +110,7 @@ def main():
                 res = calc(**pars)
                 again = calc(**pars)
                 rec["hex"] = np.asarray(res, float).tobytes().hex()
+                kept.append((i, op, res, blob_of(res)))
                 rec["mutated"] = (list(pars.items()) != list(before.items())
                                   or any(not np.array_equal(a, b) for a, b in zip(arrays, copies)))
                 if np.asarray(again, float).tobytes() != np.asarray(res, float).tobytes():
@@ -129,6 +136,7 @@ def main():
                 copies = [a.copy() for a in q]
                 res = sm.evalDistribution(q[0] if len(q) == 1 else q)
                 rec["hex"] = np.asarray(res, float).tobytes().hex()
+                kept.append((i, op, res, blob_of(res)))
                 rec["mutated"] = any(not np.array_equal(a, b) for a, b in zip(q, copies))
                 last = step
             else:
@@ -137,6 +145,12 @@ def main():
             import traceback
             rec["err"] = "%s: %s" % (type(exc).__name__, str(exc)[:300])
             rec["where"] = traceback.extract_tb(exc.__traceback__)[-1].filename
+        # results handed out earlier belong to the caller: a later call must not change them
+        changed = [(j, op_j) for j, op_j, res_j, blob_j in kept if j != i and blob_of(res_j) != blob_j]
+        if changed:
+            rec["clobbered"] = changed
+            kept[:] = [(j, op_j, res_j, blob_of(res_j)) for j, op_j, res_j, _b in kept]
+        del kept[:-8]
         out.append(rec)
     with open(sys.argv[2], "w") as fh:
         json.dump(out, fh)
